@@ -169,6 +169,11 @@ pub struct C04Case {
     /// index of the commit whose final sync is made to fail (it returns an error; its header has
     /// reached the file, so the new state is visible)
     pub fsync_fault: Option<usize>,
+    /// a second commit whose final sync fails (with `fsync_fault`: two failures, possibly in a row)
+    pub fsync_fault2: Option<usize>,
+    /// index of the commit whose header write fails (EIO on the first write after the data sync: the
+    /// commit reports the error, nothing of it is visible)
+    pub header_fault: Option<usize>,
     pub chain: Vec<usize>,
     /// chain of a second writer thread (empty: none); its bodies must commute with `chain`
     pub second: Vec<usize>,
@@ -212,7 +217,9 @@ pub fn c04_run(case: &C04Case, base: &Base, path: &str, prefix: &[u8], policy: R
             return (ExecResult { points: vec![], deadlock: None, diverged: Some(format!("cannot open base: {:?}", other.map(|r| r.map(|_| ())))), panics: vec![] }, vec![], String::new());
         }
     };
-    let specs = case.bodies_specs();
+    let all_specs = case.bodies_specs();
+    // the commit whose header write fails is attempted by the writer but is in no committed state
+    let specs: Vec<Vec<OpSpec>> = all_specs.iter().enumerate().filter(|(i, _)| Some(*i) != case.header_fault).map(|(_, s)| s.clone()).collect();
     let specs2 = case.second_specs();
     // grid[j][i] = state after the first i commits of the first writer and the first j of the second
     // (the two chains commute: checked here, a case that does not is a harness mistake)
@@ -249,8 +256,10 @@ pub fn c04_run(case: &C04Case, base: &Base, path: &str, prefix: &[u8], policy: R
         let db = db.clone();
         let commits_done = if wi == 0 { commits_done.clone() } else { commits_done2.clone() };
         let obs = obs.clone();
-        let chain_ops: Vec<&'static [Op]> = if wi == 0 { &specs } else { &specs2 }.iter().map(|s| leak_ops(s)).collect();
+        let chain_ops: Vec<&'static [Op]> = if wi == 0 { &all_specs } else { &specs2 }.iter().map(|s| leak_ops(s)).collect();
         let fsync_fault = if wi == 0 { case.fsync_fault } else { None };
+        let fsync_fault2 = if wi == 0 { case.fsync_fault2 } else { None };
+        let header_fault = if wi == 0 { case.header_fault } else { None };
         bodies.push(Box::new(move |_ctx: &Ctx| {
             for (ci, ops) in chain_ops.into_iter().enumerate() {
                 let tx = match db.tx(true) {
@@ -264,14 +273,15 @@ pub fn c04_run(case: &C04Case, base: &Base, path: &str, prefix: &[u8], policy: R
                     obs.lock().unwrap().errors.push(format!("writer: op panicked: {}", p));
                     return;
                 }
-                let inject = fsync_fault == Some(ci);
+                let inject_header = header_fault == Some(ci);
+                let inject = fsync_fault == Some(ci) || fsync_fault2 == Some(ci) || inject_header;
                 if inject {
                     crate::iosim::with_plan(|p| {
                         p.armed = true;
                         p.calls = 0;
                         p.call_kinds.clear();
                         p.fault_fired = false;
-                        p.fault = Some(crate::iosim::Fault::nth(crate::iosim::Kind::Fsync, 1, libc::EIO));
+                        p.fault = Some(if inject_header { crate::iosim::Fault::first_write_after_sync(libc::EIO) } else { crate::iosim::Fault::nth(crate::iosim::Kind::Fsync, 1, libc::EIO) });
                     });
                 }
                 let res = tx.commit();
@@ -284,6 +294,7 @@ pub fn c04_run(case: &C04Case, base: &Base, path: &str, prefix: &[u8], policy: R
                     .unwrap_or(false);
                 match res {
                     Ok(()) if !fired => {}
+                    Err(_) if fired && inject_header => continue, // reported, and nothing of it is visible
                     Err(_) if fired => {} // expected: the error is reported, the state is visible
                     Ok(()) => {
                         obs.lock().unwrap().errors.push("writer: the commit whose final sync failed returned Ok".into());
@@ -401,38 +412,46 @@ fn c04_cases(tier: Tier) -> Vec<(C04Case, usize)> {
     // every chain of two commits x one reader
     for a in 0..nm {
         for b in 0..nm {
-            v.push((C04Case { second: vec![], fsync_fault: None, chain: vec![a, b], readers: 1, dumps: 2 }, if tier == Tier::Quick { 2 } else { 3 }));
+            v.push((C04Case { fsync_fault2: None, header_fault: None, second: vec![], fsync_fault: None, chain: vec![a, b], readers: 1, dumps: 2 }, if tier == Tier::Quick { 2 } else { 3 }));
         }
     }
     // chains of three commits against one reader at two preemptions: a reader that begins in the
     // middle of the first commit and stays open across the next two
     if tier == Tier::Quick {
         for chain in [vec![0, 3, 5], vec![5, 2, 3], vec![1, 0, 2], vec![2, 5, 3]] {
-            v.push((C04Case { second: vec![], fsync_fault: None, chain, readers: 1, dumps: 2 }, 2));
+            v.push((C04Case { fsync_fault2: None, header_fault: None, second: vec![], fsync_fault: None, chain, readers: 1, dumps: 2 }, 2));
         }
     }
     // a commit whose final sync fails in the middle of the chain, with a reader around
     for (chain, at) in [(vec![0, 3, 5], 0usize), (vec![5, 2, 3], 1), (vec![1, 0, 2], 0)] {
-        v.push((C04Case { second: vec![], fsync_fault: Some(at), chain, readers: 1, dumps: 2 }, 2));
+        v.push((C04Case { fsync_fault2: None, header_fault: None, second: vec![], fsync_fault: Some(at), chain, readers: 1, dumps: 2 }, 2));
     }
     // two writer threads (commuting chains) and a reader: a writer that begins while the other is
     // still inside its commit
     for (chain, second) in [(vec![0, 2], vec![3]), (vec![5, 1], vec![4]), (vec![3], vec![2, 5])] {
-        v.push((C04Case { second, fsync_fault: None, chain, readers: 1, dumps: 2 }, 2));
+        v.push((C04Case { fsync_fault2: None, header_fault: None, second, fsync_fault: None, chain, readers: 1, dumps: 2 }, 2));
+    }
+    // two commits in a row whose final sync fails; a commit whose header write fails followed by
+    // different commits
+    for (chain, f1, f2) in [(vec![0, 3, 5, 2], 0usize, 1usize), (vec![5, 2, 3, 0], 1, 2)] {
+        v.push((C04Case { fsync_fault2: Some(f2), header_fault: None, second: vec![], fsync_fault: Some(f1), chain, readers: 1, dumps: 2 }, if tier == Tier::Quick { 1 } else { 2 }));
+    }
+    for (chain, h) in [(vec![5, 0, 2, 3], 0usize), (vec![0, 3, 5, 2], 1), (vec![2, 5, 1, 3], 0)] {
+        v.push((C04Case { fsync_fault2: None, header_fault: Some(h), second: vec![], fsync_fault: None, chain, readers: 1, dumps: 2 }, if tier == Tier::Quick { 1 } else { 2 }));
     }
     // asymmetric chains of three, two readers
-    v.push((C04Case { second: vec![], fsync_fault: None, chain: vec![0, 3, 5], readers: 2, dumps: 2 }, if tier == Tier::Quick { 1 } else { 2 }));
-    v.push((C04Case { second: vec![], fsync_fault: None, chain: vec![5, 2, 3], readers: 2, dumps: 2 }, if tier == Tier::Quick { 1 } else { 2 }));
+    v.push((C04Case { fsync_fault2: None, header_fault: None, second: vec![], fsync_fault: None, chain: vec![0, 3, 5], readers: 2, dumps: 2 }, if tier == Tier::Quick { 1 } else { 2 }));
+    v.push((C04Case { fsync_fault2: None, header_fault: None, second: vec![], fsync_fault: None, chain: vec![5, 2, 3], readers: 2, dumps: 2 }, if tier == Tier::Quick { 1 } else { 2 }));
     if tier == Tier::Thorough {
         for a in 0..nm {
             for b in 0..nm {
                 for c in 0..nm {
-                    v.push((C04Case { second: vec![], fsync_fault: None, chain: vec![a, b, c], readers: 1, dumps: 2 }, 2));
+                    v.push((C04Case { fsync_fault2: None, header_fault: None, second: vec![], fsync_fault: None, chain: vec![a, b, c], readers: 1, dumps: 2 }, 2));
                 }
             }
         }
-        v.push((C04Case { second: vec![], fsync_fault: None, chain: vec![0, 3, 5, 2], readers: 1, dumps: 3 }, 3));
-        v.push((C04Case { second: vec![], fsync_fault: None, chain: vec![3, 0, 2, 5], readers: 2, dumps: 2 }, 2));
+        v.push((C04Case { fsync_fault2: None, header_fault: None, second: vec![], fsync_fault: None, chain: vec![0, 3, 5, 2], readers: 1, dumps: 3 }, 3));
+        v.push((C04Case { fsync_fault2: None, header_fault: None, second: vec![], fsync_fault: None, chain: vec![3, 0, 2, 5], readers: 2, dumps: 2 }, 2));
     }
     v
 }
@@ -661,17 +680,17 @@ pub fn run(check: &mut Check, prop: &str, cases: Vec<CaseInfo>, policies: &[&str
 fn c03_thread_cases(tier: Tier) -> Vec<(C04Case, usize)> {
     let mut v = vec![];
     for chain in [vec![0, 3, 5], vec![5, 2, 3], vec![1, 0, 2], vec![2, 5, 3], vec![3, 1, 4], vec![4, 4, 0]] {
-        v.push((C04Case { second: vec![], fsync_fault: None, chain, readers: 1, dumps: 2 }, 2));
+        v.push((C04Case { fsync_fault2: None, header_fault: None, second: vec![], fsync_fault: None, chain, readers: 1, dumps: 2 }, 2));
     }
-    v.push((C04Case { second: vec![], fsync_fault: None, chain: vec![0, 3, 5], readers: 2, dumps: 2 }, 1));
+    v.push((C04Case { fsync_fault2: None, header_fault: None, second: vec![], fsync_fault: None, chain: vec![0, 3, 5], readers: 2, dumps: 2 }, 1));
     if tier == Tier::Thorough {
         let nm = c04_menu().len();
         for a in 0..nm {
             for b in 0..nm {
-                v.push((C04Case { second: vec![], fsync_fault: None, chain: vec![a, b, (a + b + 1) % nm], readers: 1, dumps: 3 }, 2));
+                v.push((C04Case { fsync_fault2: None, header_fault: None, second: vec![], fsync_fault: None, chain: vec![a, b, (a + b + 1) % nm], readers: 1, dumps: 3 }, 2));
             }
         }
-        v.push((C04Case { second: vec![], fsync_fault: None, chain: vec![5, 2, 3, 0], readers: 2, dumps: 2 }, 2));
+        v.push((C04Case { fsync_fault2: None, header_fault: None, second: vec![], fsync_fault: None, chain: vec![5, 2, 3, 0], readers: 2, dumps: 2 }, 2));
     }
     v
 }
@@ -688,7 +707,7 @@ fn case_infos(cases: Vec<(C04Case, usize)>) -> Vec<CaseInfo> {
     let menu = c04_menu();
     cases
         .iter()
-        .map(|(c, bound)| CaseInfo { label: format!("chain{:?}{}{}-r{}-c{}", c.chain, if c.second.is_empty() { String::new() } else { format!("+w2{:?}", c.second) }, c.fsync_fault.map(|i| format!("-fsyncfail@{}", i)).unwrap_or_default(), c.readers, bound), describe: json!({"writer_chain": c.chain.iter().map(|&m| menu[m].iter().map(|o| o.to_json()).collect::<Vec<_>>()).collect::<Vec<_>>(), "second_writer_chain": c.second, "readers": c.readers, "dumps_per_reader": c.dumps, "preemption_bound": bound}) })
+        .map(|(c, bound)| CaseInfo { label: format!("chain{:?}{}{}-r{}-c{}", c.chain, if c.second.is_empty() { String::new() } else { format!("+w2{:?}", c.second) }, format!("{}{}{}", c.fsync_fault.map(|i| format!("-fsyncfail@{}", i)).unwrap_or_default(), c.fsync_fault2.map(|i| format!("+{}", i)).unwrap_or_default(), c.header_fault.map(|i| format!("-headerwritefail@{}", i)).unwrap_or_default()), c.readers, bound), describe: json!({"writer_chain": c.chain.iter().map(|&m| menu[m].iter().map(|o| o.to_json()).collect::<Vec<_>>()).collect::<Vec<_>>(), "second_writer_chain": c.second, "readers": c.readers, "dumps_per_reader": c.dumps, "preemption_bound": bound}) })
         .collect()
 }
 
